@@ -1,4 +1,6 @@
 import RTV.Lemmas.DateUtils
+import RTV.Lemmas.DtRes
+import RTV.Props.C08
 /-!
 # C09 — dates without a year resolve to the nearest past and the next future occurrence
 
@@ -36,6 +38,54 @@ theorem weekday_candidates (R : DateTime) (hv : R.date.valid = true) (dow : Nat)
     t = ofString "XXXX-WXX-" ++ natStr (target dow) :=
   bareWeekday_spec R hv dow hd t f p h
 
+/-- Totality (audit item 15: `weekday_candidates` is conditional on `bareWeekday … = some …`; this is when it holds): `bareWeekday` answers whenever the three weeks around the reference (the week
+before its Monday … the week after its Sunday) lie inside 0001-01-01..9999-12-31. -/
+theorem bareWeekday_defined (R : DateTime) (hv : R.date.valid = true) (dow : Nat) (hd : dow ≤ 7)
+    (h1 : 8 ≤ mondayOrd R.date.ord) (h2 : mondayOrd R.date.ord + 20 ≤ maxOrd) : ∃ r, bareWeekday R dow = some r := by
+  have tr : 1 ≤ target dow ∧ target dow ≤ 7 := by unfold target; split <;> omega
+  have tt : target (target dow) = target dow := by unfold target; split <;> simp <;> omega
+  have wd : (if dow < 1 then 7 else dow) = target dow := by unfold target; split <;> split <;> omega
+  obtain ⟨v0, h0⟩ := this_defined R hv dow (by omega)
+  have s0 := this_spec R hv dow v0 h0
+  obtain ⟨vn, hn⟩ := next_defined R hv (target dow) (by rw [tt]; omega)
+  have sn := next_spec R hv (target dow) vn hn
+  rw [tt] at sn
+  unfold bareWeekday
+  simp only [h0, Option.bind_some, wd]
+  -- the chosen value: this week's or next week's day
+  have key : ∀ value : DateTime, value.date.valid = true →
+      ((value.date.ord : Int) = mondayOrd R.date.ord + (target dow : Int) - 1 ∨
+       (value.date.ord : Int) = mondayOrd R.date.ord + (target dow : Int) - 1 + 7) →
+      ∃ r, ((if value.lt R then addDays value 7 else some value).bind fun future =>
+        (if R.le value then addDays value (-7) else some value).bind fun past =>
+        some ([88, 88, 88, 88, 45, 87, 88, 88, 45] ++ natStr (target dow),
+          safeCreateFromMinValue future.date.y future.date.m future.date.d,
+          safeCreateFromMinValue past.date.y past.date.m past.date.d)) = some r := by
+    intro value hvv ho
+    obtain ⟨f, hf⟩ : ∃ f, (if value.lt R then addDays value 7 else some value) = some f := by
+      split
+      · exact addDays_isSome value 7 (by omega) (by omega)
+      · exact ⟨_, rfl⟩
+    obtain ⟨p, hp⟩ : ∃ p, (if R.le value then addDays value (-7) else some value) = some p := by
+      split
+      · exact addDays_isSome value (-7) (by omega) (by omega)
+      · exact ⟨_, rfl⟩
+    exact ⟨([88, 88, 88, 88, 45, 87, 88, 88, 45] ++ natStr (target dow), safeCreateFromMinValue f.date.y f.date.m f.date.d,
+      safeCreateFromMinValue p.date.y p.date.m p.date.d), by simp only [hf, hp, Option.bind_some]⟩
+  split
+  · simp only [hn, Option.bind_some]
+    exact key vn sn.1 (Or.inr (by omega))
+  · simp only [Option.bind_some]
+    exact key v0 s0.1 (Or.inl s0.2.2)
+
+theorem weekday_candidates_total (R : DateTime) (hv : R.date.valid = true) (dow : Nat) (hd : dow ≤ 7)
+    (h1 : 8 ≤ mondayOrd R.date.ord) (h2 : mondayOrd R.date.ord + 20 ≤ maxOrd) :
+    ∃ t f p, bareWeekday R dow = some (t, f, p) ∧ f.date.ord = p.date.ord + 7 ∧ p.date.ord < R.date.ord ∧
+      R.date.ord ≤ f.date.ord ∧ isoWeekdayOrd f.date.ord = target dow := by
+  obtain ⟨⟨t, f, p⟩, h⟩ := bareWeekday_defined R hv dow hd h1 h2
+  have s := weekday_candidates R hv dow hd t f p h
+  exact ⟨t, f, p, h, s.2.2.2.2.2.2.1, s.2.2.2.2.2.2.2.1, s.2.2.2.2.2.2.2.2.1, s.2.2.2.2.1⟩
+
 /-- nothing with the same weekday lies strictly between the two candidates -/
 theorem weekday_candidates_adjacent (a b n : Nat) (h : b = a + 7) (h1 : a < n) (h2 : n < b) :
     isoWeekdayOrd n ≠ isoWeekdayOrd a := by
@@ -52,14 +102,28 @@ Full statement (FAILS on the faithful model, see `monthday_fails_with_time_of_da
 `(m, d)` other than 29 February, `generateDates true R R.year m d = (⟨Y+1, m, d⟩, ⟨Y, m, d⟩)` with
 `⟨Y, m, d⟩ < R.date ≤ ⟨Y+1, m, d⟩`. -/
 
-/-- Holds when the reference's time of day is 00:00:00. -/
+/-- Holds under the EXACT guard: the reference's time of day is 00:00:00, OR the stated day is not the reference's own day
+of the reference's year (then the midnight candidate and the reference differ in their dates and the time of day plays no
+part).  Exactness: `monthday_guard_exact` — outside the guard the statement fails for every such reference. -/
 theorem monthday_candidates_partial (R : DateTime) (hv : R.date.valid = true) (m d : Nat) (he : everyYear m d)
-    (hy1 : 2 ≤ R.date.y) (hy2 : R.date.y ≤ 9998) (hs : R.secs = 0) :
+    (hy1 : 2 ≤ R.date.y) (hy2 : R.date.y ≤ 9998) (hs : R.secs = 0 ∨ (⟨R.date.y, m, d⟩ : Date).ord ≠ R.date.ord) :
     ∃ Y : Nat, monthDayNoYear R m d = (luisDateNoYear m d, ⟨⟨Y + 1, m, d⟩, 0⟩, ⟨⟨Y, m, d⟩, 0⟩) ∧
       (⟨Y, m, d⟩ : Date).valid = true ∧ (⟨Y + 1, m, d⟩ : Date).valid = true ∧
       (⟨Y, m, d⟩ : Date).ord < R.date.ord ∧ R.date.ord ≤ (⟨Y + 1, m, d⟩ : Date).ord := by
-  obtain ⟨Y, h1, h2⟩ := generateDates_monthday R hv m d he hy1 hy2 hs
+  obtain ⟨Y, h1, h2⟩ := generateDates_monthday_exact R hv m d he hy1 hy2 hs
   exact ⟨Y, by unfold monthDayNoYear; rw [h1], h2⟩
+
+/-- NEGATIVE, for EVERY reference outside the guard: the stated day is the reference's own day and the reference has a time
+of day → the pair is (next year's occurrence, the reference's own date): the "past" candidate is not strictly before the
+reference date and the "future" candidate is not the earliest occurrence on or after it. -/
+theorem monthday_guard_exact (R : DateTime) (hv : R.date.valid = true) (he : everyYear R.date.m R.date.d)
+    (hy1 : 2 ≤ R.date.y) (hy2 : R.date.y ≤ 9998) (hs : 0 < R.secs) :
+    monthDayNoYear R R.date.m R.date.d =
+      (luisDateNoYear R.date.m R.date.d, ⟨⟨R.date.y + 1, R.date.m, R.date.d⟩, 0⟩, ⟨R.date, 0⟩) ∧
+    ¬ ((⟨R.date, 0⟩ : DateTime).date.ord < R.date.ord) := by
+  refine ⟨?_, by simp⟩
+  unfold monthDayNoYear
+  rw [generateDates_monthday_own_day R hv he hy1 hy2 hs]
 
 /-- Negative witness: `May 10` asked at 2020-05-10 14:00:00 → future 2021-05-10, past 2020-05-10
 (the property wants 2020-05-10 as the future and 2019-05-10 as the past candidate). -/
@@ -182,4 +246,115 @@ theorem written_day_prefix_regression :
     numberWithMonthPreFix ⟨⟨2020, 2, 21⟩, 0⟩ 2 22 =
       some (ofString "XXXX-02-22", ⟨⟨2020, 2, 22⟩, 0⟩, ⟨⟨2021, 2, 22⟩, 0⟩) := by decide
 
+/-! ## The two models of `generate_dates` agree (audit item 15)
+
+C06 / C07 reason about `RTV.DtRes.generateDates` (field tuples), C08 / C09 about `RTV.DateUtils.generateDates` (ordinals):
+independent transcriptions of the same Python function.  They are the same function. -/
+
+
+/-- a `DateUtils` datetime (date + seconds since midnight) as the field tuple of the `DtRes` layer -/
+def toDT (x : DateTime) : RTV.DtRes.DT := ⟨x.date.y, x.date.m, x.date.d, x.secs / 3600, x.secs / 60 % 60, x.secs % 60⟩
+
+theorem mk_agree (y : Int) (m d : Nat) :
+    (RTV.DtRes.safeCreateFromMinValue y m d).getD RTV.DtRes.minValue = toDT (safeCreateFromMinValue y m d) := by
+  unfold RTV.DtRes.safeCreateFromMinValue RTV.DtRes.safeCreateFromValue RTV.DtRes.isValidDate RTV.DtRes.isValidTime
+    safeCreateFromMinValue safeCreateFromValue isValidDate
+  by_cases c : 1 ≤ y ∧ y ≤ 9999 ∧ 1 ≤ (m : Int) ∧ (m : Int) ≤ 12 ∧ 1 ≤ (d : Int) ∧ (d : Int) ≤ (daysInMonth y.toNat ((m : Int).toNat) : Int)
+  · have hv : (⟨y.toNat, m, d⟩ : Date).valid = true := by
+      rw [valid_iff]; simp only [Int.toNat_natCast] at c; simp only; omega
+    have e : RTV.DtRes.mkDateTime y m d 0 0 0 = some ⟨y.toNat, m, d, 0, 0, 0⟩ := by
+      unfold RTV.DtRes.mkDateTime
+      rw [if_pos (by omega)]
+      simp
+    simp [e, hv, c.1, c.2.1, toDT]
+  · have hv : ¬ ((1 ≤ y ∧ y ≤ 9999) ∧ (⟨y.toNat, m, d⟩ : Date).valid = true) := by
+      rw [valid_iff]; simp only [Int.toNat_natCast] at c; simp only; omega
+    have e : RTV.DtRes.mkDateTime y m d 0 0 0 = none := by
+      unfold RTV.DtRes.mkDateTime
+      rw [if_neg (by omega)]
+    have hv' : (decide (1 ≤ y) && decide (y ≤ 9999) && (⟨y.toNat, m, d⟩ : Date).valid) = false := by
+      cases h : (decide (1 ≤ y) && decide (y ≤ 9999) && (⟨y.toNat, m, d⟩ : Date).valid) with
+      | false => rfl
+      | true => exfalso; apply hv; simpa [and_assoc] using h
+    simp [e, hv', toDT, RTV.DtRes.minValue, minValue]
+
+theorem lt_agree (a b : DateTime) (ha : a.date.valid = true) (hb : b.date.valid = true) :
+    (toDT a).lt (toDT b) = a.lt b := by
+  have hl := ord_lt_iff_lexLt a.date b.date ha hb
+  have hl' := ord_lt_iff_lexLt b.date a.date hb ha
+  have he : a.date.ord = b.date.ord ↔ a.date = b.date := ⟨ord_inj a.date b.date ha hb, fun h => by rw [h]⟩
+  rw [Bool.eq_iff_iff, lt_iff]
+  unfold RTV.DtRes.DT.lt toDT
+  simp only
+  unfold Date.lexLt at hl hl'
+  by_cases hy : a.date.y = b.date.y
+  · by_cases hm : a.date.m = b.date.m
+    · by_cases hd : a.date.d = b.date.d
+      · have : a.date = b.date := by cases ha' : a.date; cases hb' : b.date; simp_all
+        simp only [hy, hm, hd, ne_eq, not_true_eq_false, if_false]
+        have e := he.2 this
+        split <;> (try split) <;> simp only [decide_eq_true_eq] <;> omega
+      · simp only [hy, hm, ne_eq, not_true_eq_false, if_false, hd, not_false_eq_true, if_true, decide_eq_true_eq]
+        have : a.date.ord ≠ b.date.ord := fun e => hd (by rw [he.1 e])
+        simp_all
+    · simp only [hy, ne_eq, not_true_eq_false, if_false, hm, not_false_eq_true, if_true, decide_eq_true_eq]
+      have : a.date.ord ≠ b.date.ord := fun e => hm (by rw [he.1 e])
+      simp_all
+  · simp only [ne_eq, hy, not_false_eq_true, if_true, decide_eq_true_eq]
+    have : a.date.ord ≠ b.date.ord := fun e => hy (by rw [he.1 e])
+    simp_all
+
+theorem safeCreate_date_valid (y : Int) (m d : Nat) : (safeCreateFromMinValue y m d).date.valid = true := by
+  unfold safeCreateFromMinValue safeCreateFromValue
+  split
+  · rename_i h
+    unfold isValidDate at h
+    simp only [Bool.and_eq_true] at h
+    exact h.2
+  · decide
+
+theorem le_eq_not_lt (a b : DateTime) : a.le b = !(b.lt a) := by
+  rw [Bool.eq_iff_iff]
+  simp only [Bool.not_eq_true', ← Bool.not_eq_true, le_iff, lt_iff]
+  omega
+
+theorem isValidDate_agree (y : Int) (m d : Nat) : RTV.DtRes.isValidDate y m d = isValidDate y m d := by
+  unfold RTV.DtRes.isValidDate RTV.DtRes.mkDateTime isValidDate
+  rw [Bool.eq_iff_iff]
+  simp only [Bool.and_eq_true, decide_eq_true_eq, valid_iff, Int.toNat_natCast]
+  constructor
+  · intro h
+    split at h
+    · rename_i c; omega
+    · simp at h
+  · intro h
+    rw [if_pos (by omega)]
+    simp
+
+theorem isLeapYear_agree (y : Int) : RTV.DtRes.isLeapYear y = isLeapYear y := by
+  unfold RTV.DtRes.isLeapYear isLeapYear
+  simp only [Int.fmod_eq_emod_of_nonneg _ (show (0 : Int) ≤ 4 by omega), Int.fmod_eq_emod_of_nonneg _ (show (0 : Int) ≤ 100 by omega),
+    Int.fmod_eq_emod_of_nonneg _ (show (0 : Int) ≤ 400 by omega)]
+
+/-- The two models of `DateUtils.generate_dates` — `RTV.DateUtils.generateDates` (C08 / C09: date + seconds, ordinals) and
+`RTV.DtRes.generateDates` (C06 / C07: field tuples, CPython's tuple comparison) — compute the same pair for every flag,
+every valid reference datetime, every year (any integer) and every month / day. -/
+theorem generateDates_models_agree (ny : Bool) (R : DateTime) (hv : R.date.valid = true) (year : Int) (m d : Nat) :
+    RTV.DtRes.generateDates ny (toDT R) year m d =
+      (toDT (generateDates ny R year m d).1, toDT (generateDates ny R year m d).2) := by
+  have lt1 : ∀ z : Int, (toDT (safeCreateFromMinValue z m d)).lt (toDT R) = (safeCreateFromMinValue z m d).lt R :=
+    fun z => lt_agree _ R (safeCreate_date_valid z m d) hv
+  have feb : ((m : Int) = 2 ∧ (d : Int) = 29) ↔ isFeb29th m d = true := by
+    unfold isFeb29th; simp only [Bool.and_eq_true, beq_iff_eq]; omega
+  unfold RTV.DtRes.generateDates generateDates
+  simp only [mk_agree, lt1, isValidDate_agree, isLeapYear_agree, le_eq_not_lt,
+    Int.fdiv_eq_ediv_of_nonneg _ (show (0 : Int) ≤ 4 by omega)]
+  cases ny
+  · simp
+  · simp only [if_true]
+    by_cases hf : isFeb29th m d = true
+    · rw [if_pos (feb.2 hf), if_pos hf]
+      split <;> (try split) <;> rfl
+    · rw [if_neg (fun h => hf (feb.1 h)), if_neg hf]
+      split <;> split <;> rfl
 end RTV.DateUtils
